@@ -169,6 +169,16 @@ func (t *tr) expr(e ast.Expr) string {
 	case *ast.ParenExpr:
 		return t.expr(x.X)
 	case *ast.Ident:
+		// a package-level function of the same package used as a VALUE (e.g. a named helper passed where a function
+		// literal stood before): translated on demand like a called helper. Additive: the bare name was an unknown
+		// identifier on the Lean side before.
+		if fn, ok := info.Uses[x].(*types.Func); ok && fn.Pkg() == t.pkg.Types {
+			if _, listed := t.known[x.Name]; !listed {
+				if name, ok := t.helperFunc(x); ok {
+					return name
+				}
+			}
+		}
 		return mangle(x.Name)
 	case *ast.UnaryExpr:
 		switch x.Op {
@@ -217,6 +227,14 @@ func (t *tr) expr(e ast.Expr) string {
 		}
 		return t.fail(e, "binary %s", x.Op)
 	case *ast.CallExpr:
+		// make([]T, 0) / make([]T, 0, capacity): an empty slice, whatever its capacity. Additive (was unsupported).
+		if f, ok := x.Fun.(*ast.Ident); ok && f.Name == "make" && info.Uses[f] == types.Universe.Lookup("make") && len(x.Args) >= 2 {
+			if _, isSlice := info.TypeOf(x.Args[0]).Underlying().(*types.Slice); isSlice {
+				if tv, ok := info.Types[x.Args[1]]; ok && tv.Value != nil && tv.Value.ExactString() == "0" {
+					return "[]"
+				}
+			}
+		}
 		// conversion?
 		if tv, ok := info.Types[x.Fun]; ok && tv.IsType() {
 			if len(x.Args) != 1 {
